@@ -25,6 +25,7 @@ ROWS = {
  "split_thorough": dict(acts=S("CvSplit"), props=["SplitRestricts"], pts='"gen", "unit"', wts='"none", "gen", "gen2"', degs="DegsT", maxnpts=6),
  "remove_quick": dict(acts=S("CvKnotInsert", "CvKnotRemove"), scenario="history", prep=1, depth=2, maxnpts=4, nodesize=2, props=["RemoveExactOrRefused"], wts='"none", "gen", "const"', pts='"gen", "homlin"'),
  "remove_thorough": dict(acts=S("CvKnotInsert", "CvKnotRemove"), scenario="history", prep=1, depth=2, maxnpts=5, degs="DegsT", nodesize=2, props=["RemoveExactOrRefused"], wts='"none", "gen", "gen2"'),
+ "remove_narrow_quick": dict(acts=S("CvKnotRemove", "CvDegreeDecrease"), breaks="BreaksN", degs="DegsN", maxnpts=5, nodesize=2, wts='"none", "gen"', pts='"gen", "pos"'),
  "decrease_quick": dict(acts=S("CvDegreeIncrease", "CvDegreeDecrease"), scenario="history", prep=1, depth=2, maxnpts=4, props=["ReduceExactOrRefused"], wts='"none", "gen", "const"', pts='"gen", "homlin"'),
  "decrease_thorough": dict(acts=S("CvDegreeIncrease", "CvDegreeDecrease"), scenario="history", prep=1, depth=2, maxnpts=5, degs="DegsT", props=["ReduceExactOrRefused"], wts='"none", "gen", "gen2"'),
  "join_quick": dict(acts=S("CvSplitTake", "CvJoin"), depth=2, maxnpts=4, omax=3, props=["JoinRestores"], wts='"none", "gen"'),
